@@ -1,7 +1,7 @@
 (* C06/Properties.v — property theorems only (each closed by [exact lemma] and followed by
    [Print Assumptions]).  Model: C06/Model.v (the code after fix commits 3a7f18b, 811f017, 2c8a29b). *)
 From Coq Require Import String Permutation Morphisms Sorted.
-From RM Require Import C06.Model C06.GenModel C06.Proofs C06.Proofs2 C06.Proofs3 C06.Proofs4 C06.Proofs5 C06.Proofs6 C06.Proofs7 C06.Proofs8 C06.Proofs9 C06.Proofs10 C06.Driver C06.GenDriver Gen.UnwindConsts.
+From RM Require Import C06.Model C06.GenModel C06.Proofs C06.Proofs2 C06.Proofs3 C06.Proofs4 C06.Proofs5 C06.Proofs6 C06.Proofs7 C06.Proofs8 C06.Proofs9 C06.Proofs10 C06.Proofs11 C06.Driver C06.GenDriver Gen.UnwindConsts.
 Open Scope Z_scope.
 
 (* No Panic and no OutOfFuel: for ALL rule texts (arbitrary byte strings), every walker (any
@@ -442,3 +442,21 @@ Example c06_nonvacuous_literal :
   parse_int 64 (bs "+5") = Some 5 /\ parse_int 64 (bs "-0") = Some 0 /\ parse_int 64 (bs "00012") = Some 12 /\
   parse_int 64 (bs "--5") = None /\ parse_int 64 (bs "+") = None /\ parse_int 64 (bs "1_0") = None.
 Proof. vm_compute. repeat split; reflexivity. Qed.
+
+(* The tokenizer ([split_ws] = str::split_ascii_whitespace, hand-written in Model.v) against its defining equations,
+   for ALL byte strings (NUL, vertical tab, bytes >= 128 are ordinary token bytes): tokens are non-empty and
+   whitespace-free; a non-empty whitespace-free string is its own single token; splitting distributes over any
+   whitespace byte; the whitespace bytes are exactly space, \t, \n, \x0C, \r.  (Every string is a concatenation of
+   whitespace bytes and whitespace-free blocks, so these equations determine the function.) *)
+Theorem c06_tokenizer_spec :
+  (forall s, Forall (fun t => t <> [] /\ ws_free t) (split_ws s)) /\
+  (forall t, t <> [] -> ws_free t -> split_ws t = [t]) /\
+  (forall a c b, is_ws c = true -> split_ws (a ++ c :: b) = split_ws a ++ split_ws b) /\
+  split_ws [] = [] /\
+  (forall c, is_ws c = true <-> c = 32 \/ c = 9 \/ c = 10 \/ c = 12 \/ c = 13).
+Proof. exact split_ws_spec. Qed.
+Print Assumptions c06_tokenizer_spec.
+
+Example c06_nonvacuous_tokenizer :
+  split_ws [32; 0; 11; 200; 9; 12; 65; 13; 10] = [[0; 11; 200]; [65]].
+Proof. vm_compute. reflexivity. Qed.
